@@ -119,6 +119,13 @@ def slog(v):
         if f < 0:
             return SX(2, 0)
     lg = slog_term(v)
+    pos = v > 0
+    if pos is True or (isinstance(pos, SBool) and z3.is_true(z3.simplify(pos.t))):
+        return lg
+    # a provably positive argument gives an ordinary real (one forced decision, no fork when the path condition implies it)
+    c = core.ctx()
+    if isinstance(pos, SBool) and c.check(z3.Not(pos.t)) == z3.unsat:
+        return lg
     return SX(ite(v > 0, 0, ite(v == 0, -1, 2)), lg)
 
 
